@@ -14,6 +14,8 @@ package rueidisaside
 //@   assert [C39 the-loaded-value-is-stored-under-the-lock-id] at Exec#2: arg0 == setkey && second(returned(fn)) == nil && len(arg3) == 1 && arg3[0] == key && len(arg4) == 3 && arg4[0] == id && arg4[1] == first(returned(fn))
 //@   assert [C39 a-failed-load-releases-this-clients-lock] at Exec#3: arg0 == delkey && err != nil && len(arg3) == 1 && arg3[0] == key && len(arg4) == 1 && arg4[0] == id
 //@   assert [C39 a-dead-holders-lock-is-released-before-retrying] at Exec#4: arg0 == delkey && returned(IsRedisNil) && len(arg3) == 1 && arg3[0] == key && len(arg4) == 1 && arg4[0] == val && strings.HasPrefix(val, PlaceholderPrefix)
+//@   ensures [C39 every-load-is-followed-by-a-store-or-a-release-of-the-lock] calls(fn) <= calls(Exec, 2) + calls(Exec, 3)
+//@   loop 0: invariant [C39 every-load-is-followed-by-a-store-or-a-release-of-the-lock] calls(fn) <= calls(Exec, 2) + calls(Exec, 3)
 //@   assert [C39 the-lock-is-taken-with-this-clients-id] at Exec#1: arg0 == acquireLock && len(arg3) == 1 && arg3[0] == key && len(arg4) == 2 && arg4[0] == id
 
 //@ func Client.register
